@@ -37,6 +37,12 @@ func VH_C14_wipe() {
 	}
 	f := cache.VHNewWipeFixture(kinds)
 	r := f.Repo
+	if rt.Choose(2) == 1 {
+		// the production configuration code (go-git backed) instead of git-bug's MemConfig
+		id, _ := r.LocalConfig().ReadString("git-bug.identity")
+		r.UseLocalConfig(repository.VHNewGoGitConfig(map[string]string{"git-bug.identity": id}))
+		rt.Cover("go-git-config")
+	}
 	foreign := repository.Hash("f00d000000000000000000000000000000000000")
 	r.SetRef("refs/heads/main", foreign)
 	r.SetRef("refs/tags/v1", foreign)
